@@ -158,7 +158,9 @@ func (c *Closure) slowClosure(component []int, onStack container.BitSet) {
 			case intersection:
 				res.Inverse = true
 				for _, w := range c.nodes[v].edges {
-					res = container.Intersect(res, c.nodes[w].IntSet, c.buf)
+					// Note: the result lives in c.buf, which the next iteration reuses as its output
+					// buffer, so it has to be copied out (interned) before it becomes an operand.
+					res = c.intern(container.Intersect(res, c.nodes[w].IntSet, c.buf))
 				}
 			case union:
 				res = fs.IntSet
